@@ -75,12 +75,13 @@ Definition conv_model (c : conv_case) : res (typemap * list opinfo) :=
   generate_types sch (v_cfg c) (map (pre_frag sch) (v_frags c)) (v_srcs c)
                  (sort_by op_name (map (pre_op sch) (v_ops c))).
 
-(* the hypotheses of Proofs/ConvertNoPanic.v hold of the program as exported (every type name,
+(* the hypotheses of Proofs/ConvertNoPanicFull.v (the strong form, which implies those of
+   Proofs/ConvertNoPanic.v) hold of the program as exported (every type name,
    fragment and root type resolves): what the validator guarantees for an accepted document *)
 Definition conv_wf (c : conv_case) : bool :=
   let sch := v_schema c in
   let frs := map (pre_frag sch) (v_frags c) in
-  schema_okb sch && frags_okb sch frs && forallb (op_okb sch frs) (map (pre_op sch) (v_ops c)).
+  schema_okb sch && frags_okb2 sch frs && forallb (op_okb2 sch frs) (map (pre_op sch) (v_ops c)).
 
 Definition conv_agrees (c : conv_case) : bool :=
   conv_wf c &&
